@@ -3,7 +3,7 @@ K3 no early exit past required comparisons, K4 no one-sided escape clause."""
 import ast
 import re
 
-from ..core import AnalysisError, norm, short, walk_local, parent_chain
+from ..core import AnalysisError, norm, short, walk_local, parent_chain, stale_loop_uses
 from . import register
 
 CMP = "spydrnet/compare/compare_netlists.py"
@@ -123,6 +123,7 @@ def check_c20(ctx, R):
     R.rule("K2", "required comparisons are present")
     R.rule("K3", "no early exit past required comparisons")
     R.rule("K4", "escape clauses of assertions constrain both sides")
+    R.rule("K5", "per-element comparisons stay inside the loop that enumerates the elements")
     two_sided = {m for m, f in cc.methods.items() if len(f.params) >= 3 and _side_of_name(f.params[1]) == "O" and _side_of_name(f.params[2]) == "C"}
     R.count("two-sided comparer methods", len(two_sided))
     R.floor("two-sided comparer methods", 9)
@@ -199,8 +200,14 @@ def check_c20(ctx, R):
             else:
                 R.bad("K2", "%s|missing|%s" % (f.key, req), f.loc(),
                       "%s no longer compares `%s` across the two netlists: a copy that differs there is accepted" % (mname, req))
+        # K5: a loop variable used after its loop ended compares only the last element
+        for x, lp in stale_loop_uses(f.node):
+            R.bad("K5", "%s|stale %s" % (f.key, S.erase(x)), f.loc(x),
+                  "%s uses `%s` after the loop over `%s` has ended: only the last element is compared, differences in all the others are accepted" % (mname, x.id, short(lp.iter, 40)))
+        if not stale_loop_uses(f.node) and any(isinstance(l_, ast.For) for l_ in walk_local(f.node)):
+            R.ok("K5", "%s: loop variables are used inside their loops" % mname, f.loc())
         # K3
-        if mname.startswith("compare"):
+        if mname.startswith(("compare", "are_")):
             for r in walk_local(f.node):
                 if isinstance(r, ast.Return) and r is not f.node.body[-1]:
                     R.bad("K3", "%s|early-return" % f.key, f.loc(r),
